@@ -432,6 +432,31 @@ CASES += [
     ("atleast_2d 3d", "lambda anp, x: anp.atleast_3d(anp.atleast_2d(x))", [((3,), "R")], (0,)),
     ("broadcast_to shape kw", "lambda anp, x: anp.broadcast_to(x, shape=(2, 2, 3))", [((1, 3), "R")], (0,)),
     ("full fill scalar", "lambda anp, x: anp.full((2, 2), x)", [((), "R")], (0,)),
+    # index arrays on FLOAT arrays in which one position is selected through different index values (negative and non-negative alias) and repeats
+    ("getitem list alias [1,-4]", "lambda anp, x: x[[1, -4]]", [((5,), "R")], (0,)),
+    ("getitem array alias+repeat", "lambda anp, x: x[" + _np + ".array([0, -5, 2, 2, -3, 4, -1])]", [((5,), "R")], (0,)),
+    ("getitem alias weighted", "lambda anp, x: x[" + _np + ".array([3, -2, 3])] * " + _np + ".array([1.0, 10.0, 100.0])", [((5,), "R")], (0,)),
+    ("getitem 2-D row alias", "lambda anp, x: x[[0, -2, 1]]", [((2, 3), "R")], (0,)),
+    ("getitem 2-D pair alias", "lambda anp, x: x[[0, -2, 1], [2, -1, 0]]", [((2, 3), "R")], (0,)),
+    ("getitem int64 array 1-D unique", "lambda anp, x: x[" + _np + ".array([4, 0, 2])] ** 2", [((5,), "R")], (0,)),
+        ("take_along-like gather of gather", "lambda anp, x: x[[1, -4, 2]][[0, 1, 1, -3]]", [((5,), "R")], (0,)),
+    # reductions of ONE-element arrays of rank >= 1 (the reduction still removes axes)
+    ("max (1,)", "lambda anp, x: anp.max(x)", [((1,), "R")], (0,)),
+    ("min (1,1) axis=0", "lambda anp, x: anp.min(x, axis=0)", [((1, 1), "R")], (0,)),
+    ("amax (1,1) axis=None", "lambda anp, x: anp.amax(x)", [((1, 1), "R")], (0,)),
+    ("amin (1,1,1) axis=(0,2)", "lambda anp, x: anp.amin(x, axis=(0, 2))", [((1, 1, 1), "R")], (0,)),
+    ("max (1,1) keepdims", "lambda anp, x: anp.max(x, axis=1, keepdims=True)", [((1, 1), "R")], (0,)),
+    ("sum prod mean var std (1,)", "lambda anp, x: anp.sum(x) + anp.prod(x) + anp.mean(x) + anp.var(x) + anp.std(x + 0.0) * 0", [((1,), "P")], (0,)),
+    ("sum mean prod (1,1) axis=0", "lambda anp, x: anp.sum(x, axis=0) + anp.mean(x, axis=0) * anp.prod(x, axis=0)", [((1, 1), "P")], (0,)),
+    ("cumsum sort (1,)", "lambda anp, x: anp.cumsum(x) + anp.sort(x)", [((1,), "P")], (0,)),
+    ("dot (1,)x(1,)", "lambda anp, x, y: anp.dot(x, y)", [((1,), "R"), ((1,), "R")], (0, 1)),
+    ("linalg.norm (1,)", "lambda anp, x: anp.linalg.norm(x)", [((1,), "P")], (0,)),
+    # broadcast_to with prepended dimensions AND a stretched axis (sizes chosen so that a sum over un-shifted axes keeps the element count)
+    ("broadcast_to (3,1)->(2,3,3)", "lambda anp, x: anp.broadcast_to(x, (2, 3, 3))", [((3, 1), "R")], (0,)),
+    ("broadcast_to (4,1)->(3,4,4)", "lambda anp, x: anp.broadcast_to(x, (3, 4, 4))", [((4, 1), "R")], (0,)),
+    ("broadcast_to (2,1,2)->(4,2,2,2)", "lambda anp, x: anp.broadcast_to(x, (4, 2, 2, 2))", [((2, 1, 2), "R")], (0,)),
+    ("broadcast_to (3,)->(2,3)", "lambda anp, x: anp.broadcast_to(x, (2, 3))", [((3,), "R")], (0,)),
+    ("broadcast_to ()->(2,3)", "lambda anp, x: anp.broadcast_to(x, (2, 3))", [((), "R")], (0,)),
 ]
 
 # ---- ArrayBox METHODS and OPERATORS (numpy_boxes.py: diff_methods delegate to the autograd.numpy functions; operators to the ufuncs)
@@ -611,6 +636,7 @@ def run_one(case):
             re = Ja.real.T @ p - Ja.imag.T @ q
             im = Jb.imag.T @ q - Jb.real.T @ p
             exp = (re + 1j * im) if cplx_in else re
+            got_rev = None
             try:
                 vjp, val = make_vjp(f, x)
                 # C10: the cotangent (and the input) are the caller's memory - frozen for the call; a write raises "read-only", a silent change shows in the copy
@@ -633,6 +659,7 @@ def run_one(case):
                     if g_arr is not None:
                         g_arr.flags.writeable = True
                 out.append((f"{label}|arg{a}", "N-frozen", frozen_ok, fr_det if frozen_ok else (fr_det if "writes" in fr_det else "cotangent / input changed by the call, or a second application of the same vjp function differs")))
+                got_rev = (got, g)
                 ok_shape = got.shape == xs.shape
                 err = float(onp.max(onp.abs(got.ravel() - exp))) if ok_shape and n_in else 0.0
                 scale = 1 + float(onp.max(onp.abs(exp))) if n_in else 1.0
@@ -693,6 +720,10 @@ def run_one(case):
                 errj = float(onp.max(onp.abs(tg.ravel() - (expj if cplx_out else expj.real)))) if tg.shape == y0.shape and n_out else 0.0
                 okj = tg.shape == y0.shape and errj <= TOL * (1 + float(onp.max(onp.abs(expj))) if n_out else 1.0)
                 out.append((f"{label}|arg{a}", "N-jvp", okj, f"max |jvp - J t| = {errj:.2e}, shape {tg.shape} vs {y0.shape}"))
+                if got_rev is not None and not cplx_in and not cplx_out and tg.shape == y0.shape and got_rev[0].shape == xs.shape:
+                    # C04, without finite differences: <g, J t> == <J^T g, t> for the two modes' answers themselves (rounding only)
+                    lhs, rhs = float(onp.sum(onp.asarray(got_rev[1]) * tg)), float(onp.sum(got_rev[0].real * onp.asarray(t)))
+                    out.append((f"{label}|arg{a}", "N-adjoint", abs(lhs - rhs) <= 1e-9 * (1 + abs(lhs) + abs(rhs)), f"<g, jvp(t)> = {lhs!r}, <vjp(g), t> = {rhs!r}"))
                 out.append((f"{label}|arg{a}", "N-jvp-space", tg.shape == y0.shape and bool(onp.iscomplexobj(tg)) == bool(cplx_out),
                             f"forward-mode tangent has shape {tg.shape} dtype {tg.dtype}; the output has shape {y0.shape} dtype {onp.asarray(y0).dtype}"))
             except Exception as e:
@@ -860,7 +891,9 @@ def run_accum(rep):
     from autograd.core import make_vjp
     idx = [3, 3, 0, 1]
     uses = {"D": lambda x, c: c * x, "S": lambda x, c: c * x[idx], "V": lambda x, c: c * x[::-1], "T": lambda x, c: c * anp.take(x, [1, 1, 2, 0]),
-            "I": lambda x, c: x, "R": lambda x, c: anp.reshape(x, (2, 2)).ravel(), "P": lambda x, c: x[idx]}   # I/R/P hand the cotangent on UNCHANGED (no widening product)
+            "I": lambda x, c: x, "R": lambda x, c: anp.reshape(x, (2, 2)).ravel(), "P": lambda x, c: x[idx],
+            # one position selected through DIFFERENT index values (negative and non-negative alias), list and integer-array spelling
+            "A": lambda x, c: c * x[[1, -3, 1, -1]], "B": lambda x, c: c * x[onp.array([0, -4, 2, -2])]}   # I/R/P hand the cotangent on UNCHANGED (no widening product)
     values = {"float64": onp.array([0.5, -1.5, 2.0, 4.0]), "complex128": onp.array([1.0 + 2.0j, -0.5j, 3.0 + 0.0j, 0.25 - 1.0j])}
     # cotangents are elements of the OUTPUT's vector space (same dtype as the value here).  A seed of a narrower dtype (int / bool / real-for-complex) is
     # outside the property's domain: on the unchanged tree the order dense, dense, sparse already truncates it (int + int stays int, then add.at).
@@ -868,7 +901,8 @@ def run_accum(rep):
             "complex128": [("complex128", onp.array([1.0 + 1.0j, 2.0, 3.0 - 0.5j, -1.0])), ("complex128 real-valued", onp.array([1.0, 2.0, 3.0, -1.0]) + 0.0j)]}
     for vk, x0 in values.items():
         cs = [0.5, 0.25, 2.0] if vk == "float64" else [0.5, 1.0j, 2.0 - 0.5j]
-        for order in ("DS", "SD", "DDS", "SSD", "DSD", "VS", "SV", "DT", "TD", "DVS", "IS", "SI", "IIS", "ISI", "IP", "PI", "RS", "SR", "IPS", "PPI", "IRP"):
+        for order in ("DS", "SD", "DDS", "SSD", "DSD", "VS", "SV", "DT", "TD", "DVS", "IS", "SI", "IIS", "ISI", "IP", "PI", "RS", "SR", "IPS", "PPI", "IRP",
+                      "A", "B", "DA", "AD", "AB", "BA", "SB", "IA", "IB", "ABD"):
             f = lambda x, order=order: sum((uses[u](x, cs[i]) for i, u in enumerate(order)), 0 * x) if order[0] not in "IRP" else sum((uses[u](x, cs[i]) for i, u in enumerate(order[1:], 1)), uses[order[0]](x, cs[0]))
             n = x0.size
             J = onp.stack([onp.asarray(f(onp.eye(n, dtype=x0.dtype)[i])) for i in range(n)], axis=1)   # plain NumPy, f linear
@@ -932,7 +966,62 @@ def run_zero_cotangent(rep):
             rep.note(f"N-hess0 {lab}: {type(e).__name__}: {str(e)[:80]}")
 
 
+NEAR_TIE = [
+    ("max 1-D", "lambda anp, x: anp.max(x)", (4,)), ("min 1-D", "lambda anp, x: anp.min(-x)", (4,)), ("amax axis=1", "lambda anp, x: anp.amax(x, axis=1)", (2, 4)),
+    ("amin axis=0 keepdims", "lambda anp, x: anp.amin(-x, axis=0, keepdims=True)", (4, 2)), ("max axis=(0,1)", "lambda anp, x: anp.max(x, axis=(0, 1))", (2, 2, 2)),
+    ("maximum of halves", "lambda anp, x: anp.maximum(x[:2], x[2:])", (4,)), ("fmax of halves", "lambda anp, x: anp.fmax(x[:2], x[2:])", (4,)),
+    ("minimum of halves", "lambda anp, x: anp.minimum(-x[:2], -x[2:])", (4,)), ("sort", "lambda anp, x: anp.sort(x)", (4,)), ("method max", "lambda anp, x: x.max()", (4,)),
+    ("abs near 0", "lambda anp, x: anp.abs(x - 1.7)", (4,)), ("norm ord=inf", "lambda anp, x: anp.linalg.norm(x, __import__('numpy').inf)", (4,)),
+]
+
+
+def run_near_tie(rep):
+    """N-near-tie: regular (tie-free) points at which two entries differ by a relative 3e-7.  The function is differentiable there and the exact
+    Jacobian is a 0/1 selection matrix, computed here from plain NumPy on +-1e-9 perturbations of each entry (smaller than the gap, so no entry
+    changes rank); reverse and forward mode must both reproduce it, and <g, J t> == <J^T g, t>."""
+    import autograd.numpy as anp
+    from autograd.core import make_jvp, make_vjp
+    rep.bound(f"near-tie points: {len(NEAR_TIE)} selection-type configurations at one point whose two largest entries differ by 3e-7 relative (bounded)")
+    warnings.simplefilter("ignore")
+    for label, src, shape in NEAR_TIE:
+        f0 = eval(src)
+        n = int(onp.prod(shape))
+        base = onp.array([0.3, 1.7, 1.7 * (1 - 3e-7), -0.2, 0.9, 1.1, -1.3, 0.6])[:n]
+        x = onp.roll(base, 1 if len(shape) > 1 else 0).reshape(shape)
+        y0 = onp.asarray(f0(onp, x))
+        J = onp.zeros((y0.size, n))
+        h = 1e-9
+        for i in range(n):
+            e = onp.zeros(n)
+            e[i] = h
+            J[:, i] = onp.round(((onp.asarray(f0(onp, x + e.reshape(shape))) - onp.asarray(f0(onp, x - e.reshape(shape)))) / (2 * h)).ravel(), 3)
+        g = _mk(y0.shape, "R", 11)
+        t = _mk(shape, "R", 5)
+        f = lambda z: f0(anp, z)
+        try:
+            got = onp.asarray(make_vjp(f, x)[0](g))
+            tang = onp.asarray(make_jvp(f, x)(t)[1])
+            ev = float(onp.max(onp.abs(got.ravel() - J.T @ onp.asarray(g).ravel()))) if got.shape == x.shape else float("inf")
+            ej = float(onp.max(onp.abs(tang.ravel() - J @ t.ravel()))) if tang.shape == y0.shape else float("inf")
+            ea = abs(float(onp.sum(onp.asarray(g) * tang)) - float(onp.sum(got * t)))
+            ok = ev <= 1e-9 and ej <= 1e-9 and ea <= 1e-9
+            det = f"|vjp - J^T g| = {ev:.2e}, |jvp - J t| = {ej:.2e}, |<g,Jt> - <J^T g,t>| = {ea:.2e} at a point whose two largest entries differ by 3e-7 relative"
+        except Exception as e:
+            ok, det = True, f"raises {type(e).__name__} (allowed)"
+            rep.note(f"near-tie {label}: {det}")
+        rep.bounded_case(("N-near-tie", label), sample=dict(case=label, clause="N-near-tie", result=det) if ok and len(rep.bounded_samples) < 6 else None)
+        if not ok:
+            rep.violation("NUM:N-near-tie", label, f"{label}: {det}", replay=dict(module="contracts.rules_numeric", near_tie=label), witness=True)
+
+
 def replay(spec):
+    if "near_tie" in spec:
+        from vlib.common import Report
+        r = Report("replay", "quick", "other", "replay")
+        r.known = {"findings": []}
+        run_near_tie(r)
+        bad = [v for v in r.violations if v["case"] == spec["near_tie"]]
+        return (not bad), (bad[0]["what"] if bad else "holds"), "0/1 selection Jacobian from plain NumPy on perturbations smaller than the gap"
     if "hess0" in spec:
         from vlib.common import Report
         r = Report("replay", "quick", "other", "replay")
